@@ -107,7 +107,7 @@ fn token(rng: &mut Rng, n: usize) -> String {
 pub fn gen_uri(rng: &mut Rng, tag: &str) -> Vec<u8> {
     let tl = 1 + rng.below(6);
     let t = if tag.is_empty() { token(rng, tl) } else { tag.to_string() };
-    let s = match rng.weighted(&[50, 10, 8, 8, 4, 4, 4, 4, 4, 4, 3, 2, 2, 4, 2]) {
+    let s = match rng.weighted(&[50, 10, 8, 8, 4, 4, 4, 4, 4, 4, 3, 2, 2, 4, 2, 2, 1, 1]) {
         0 => format!("/{}", t),
         1 => format!("/{}/{}?q={}", token(rng, 3), t, token(rng, 4)),
         2 => format!("http://localhost/{}", t),
@@ -124,7 +124,11 @@ pub fn gen_uri(rng: &mut Rng, tag: &str) -> Vec<u8> {
         12 => format!("http:///{}", t),
         // multi-byte characters in the authority (before the first '/') and no path at all
         13 => format!("http://caf\u{e9}.\u{4e16}\u{754c}:8080/{}/\u{20ac}", t),
-        _ => format!("http://\u{20ac}{}", t),
+        14 => format!("http://\u{20ac}{}", t),
+        // the scheme prefix repeated, or appearing inside the authority / path (only ONE prefix is the scheme)
+        15 => format!("http://http://localhost/{}", t),
+        16 => format!("http://http://http://{}", t),
+        _ => format!("http://host/http://{}", t),
     };
     s.into_bytes()
 }
@@ -219,7 +223,8 @@ pub fn gen_request(rng: &mut Rng, cfg: &GenCfg, tag: &str) -> GenReq {
             headers.insert(at, l.into_bytes());
         }
         let name = recase(rng, "Content-Length");
-        let digits = if rng.chance(1, 10) { format!("00{}", n) } else { n.to_string() };
+        // leading zeros, also many of them: still an unsigned 32-bit decimal
+        let digits = if rng.chance(1, 10) { format!("{}{}", "0".repeat(*rng.pick(&[1usize, 2, 2, 5, 9, 10, 11, 15, 25])), n) } else { n.to_string() };
         let l = format!("{}{}{}:{}{}{}", pad(rng), name, pad(rng), pad(rng), digits, pad(rng));
         // must come after any other Content-Length line
         let last_cl = headers
@@ -275,7 +280,21 @@ pub fn gen_header_line(rng: &mut Rng, cfg: &GenCfg) -> Vec<u8> {
         ),
         1 => (
             "Accept".into(),
-            (*rng.pick(&["application/json", "text/plain", "*/*", "text/plain, application/json", ""])).into(),
+            (*rng.pick(&[
+                "application/json",
+                "text/plain",
+                "*/*",
+                "text/plain, application/json",
+                "",
+                // a supported type followed by parameters is not one of the two supported values
+                "application/json;q=0.5",
+                "application/json; q=0.5",
+                "application/json;",
+                "text/plain;charset=utf-8",
+                "application/json,text/plain",
+                "Application/JSON",
+            ]))
+            .into(),
         ),
         2 => ("Transfer-Encoding".into(), (*rng.pick(&["chunked", "identity", "gzip", "Chunked", ""])).into()),
         3 => ("Expect".into(), (*rng.pick(&["103-checkpoint", "100-Continue", "", "100-continue2"])).into()),
@@ -365,7 +384,7 @@ pub fn corrupt(rng: &mut Rng, r: &mut GenReq, which: usize) {
         }
         15 => {
             // Content-Length edge values; appended last so that it is the effective one
-            let v = *rng.pick(&["0", "007", "4294967295", "4294967296", "-1", "", " ", "1e3", "0x10", "99999999999999999999"]);
+            let v = *rng.pick(&["0", "007", "4294967295", "4294967296", "-1", "", " ", "1e3", "0x10", "99999999999999999999", "00000000000", "000000000000000000007", "0000000004294967295", "0000000004294967296"]);
             r.headers.push((format!("Content-Length: {}", v).into_bytes(), b"\r\n".to_vec()));
         }
         16 => {
